@@ -17,6 +17,9 @@ QuickDefs ==
     \cup { PD("cpanel", R(2,1), R(3,2), R(4,1), RZero, ROne, 3, 4, FlPrimes, LamGen, iv[1], iv[2], R(3,1), Zero3)
              : iv \in { <<RZero, ROne>>, <<R(1,4), R(3,4)>> } }
     \cup { PD("kpanel", R(2,1), R(3,2), R(4,1), R(3,5), R(4,5), 3, 3, FlPrimes, LamGen, RZero, ROne, R(3,1), Zero3) }
+    (* conical strips: the width narrows along the meridian, the limits are measured on the bottom edge *)
+    \cup { PD("kpanel", R(2,1), R(3,2), R(4,1), R(3,5), R(4,5), 2, 2, FlPrimes, LamGen, iv[1], iv[2], R(3,1), Zero3)
+             : iv \in { <<RZero, R(1,2)>>, <<R(1,2), ROne>> } }
     \cup { PD("plate_w", R(2,1), R(3,2), RZero, RZero, ROne, 4, 4, FlPrimes, LamGen, iv[1], iv[2], R(3,1), Zero3)
              : iv \in { <<RZero, ROne>>, <<R(1,3), ROne>> } }
     \cup { PD("plate", R(2,1), R(3,2), RZero, RZero, ROne, 3, 3, FlFree, LamIso, RZero, ROne, R(3,1), Zero3) }
